@@ -256,6 +256,15 @@ theorem restart_closed_one_worker {s s' : St} {pns : List Nat} {occ : List (List
     (hR : RestoreRel occ s s') : Start1 { s := s', jobs := [] } :=
   restored_start1 hS hc hf ht hw hres hR
 
+/-- **8. the spawn counter round-trips through the restart file, for EVERY state** (no hypothesis on `locked` or
+    `spawned`): `write_toml` stores `current.spawned` exactly when the counter is not `cstep + len(locked)` — after a
+    restart that could not re-issue every recorded job — and `set_rgen` takes the key when present and the formula
+    otherwise; so no job picked after a restart gets the stream ordinal of an earlier job. -/
+theorem restore_spawned_roundtrip {s s' : St} {n workers tsteps : Nat} {occ : List (List Int)} {ensEng : List (List Nat)}
+    {weightOf : Nat → List Rat} (h : restore (persist s) n workers tsteps occ ensEng weightOf = .ok s') :
+    s'.spawned = s.spawned :=
+  restore_spawned h
+
 /-! ### non-vacuity on concrete small systems -/
 
 /-- 3 ensembles + ghost, 2 workers, restarted at cstep 4 of 9 with two recorded jobs -/
@@ -454,6 +463,16 @@ example : ∃ yN', Restarts exY0 exHist yN' := by
       (by simp [StepsOnly]) (by simp [exRest, StepsOnly]) (by simp [exRest]) exHistOk exRuns
   exact ⟨yN', Restarts.restart (by simp [StepsOnly]) (by simp [exRest, StepsOnly]) (by simp [exRest]) a1 a2 a4
     (Restarts.direct a5)⟩
+
+/-- a state whose counter is ahead of `cstep + len(locked)` (a record was dropped at an earlier restart): the key is
+    written (`some 9`), the image loads, and the rebuilt state has the counter 9 again -/
+def exAhead : St := { exR.1 with spawned := 9 }
+
+example : spawnedKey exAhead = some 9 ∧ (persist exAhead).spawnedRec = some 9 ∧
+    (match restore (persist exAhead) 3 1 6 [[-1]] [[0], [0]] exWeightOf with
+     | .ok s' => decide (s'.spawned = 9 ∧ s'.cstep = 3 ∧ s'.locked0 = [])
+     | .error _ => false) = true := by
+  decide +kernel
 
 /-- observational equality is not equality: the two sides of a restart differ in `cworker`, `restarted`, `rows` … -/
 example : ObsEq exRestored { exRestored with cworker := 1, restarted := false, rgenRestored := true } :=
